@@ -618,7 +618,9 @@ def set_c(env):
 
 
 # ----------------------------------------------------------------------------------------------- D: sdp <directory>
-DIR_LOCS = [("plain", "ddls"), ("dotted", "ddl.v2"), ("dot-slash", "./in"), ("abs-dotted", "{abs}/in.d"), ("trailing-slash", "ddls/"), ("cwd", "."), ("nested", "nested/in.put"), ("sibling", "../sib.d")]
+DIR_LOCS = [("plain", "ddls"), ("dotted", "ddl.v2"), ("dot-slash", "./in"), ("abs-dotted", "{abs}/in.d"), ("trailing-slash", "ddls/"), ("cwd", "."), ("nested", "nested/in.put"), ("sibling", "../sib.d"),
+            # legitimate directory names that are special to glob / fnmatch
+            ("brackets", "release[2024]"), ("star", "v*final"), ("question", "what?")]
 
 
 def one_cli_dir_case(env, set_name, key, files, dloc, target, mode, v, no_dump, sub=False):
